@@ -242,7 +242,14 @@ func c14Requests(rng *rand.Rand, g *jgen, ops []c14op, base string, per int, cfg
 		}
 		switch rng.Intn(4) {
 		case 0:
-			hdrs = append(hdrs, [2]string{"Authorization", []string{"Bearer tok", "tok", "", "Bearer ", "Basic xx"}[rng.Intn(5)]})
+			// every prefix length of a bearer credential, other schemes, wrong case, odd bytes
+			auth := []string{"Bearer tok", "tok", "", "Bearer ", "Basic xx", "bearer tok", "BEARER TOK", "Bearer  two-spaces", "Bearer\ttab", "Bearer tok extra", "Bearertok"}
+			full := "Bearer tokXYZ"
+			for n := 0; n <= len(full); n++ {
+				auth = append(auth, full[:n])
+			}
+			auth = append(auth, "abcdef", "abcdefg", strings.Repeat("B", 4000))
+			hdrs = append(hdrs, [2]string{"Authorization", auth[rng.Intn(len(auth))]})
 		case 1:
 			hdrs = append(hdrs, [2]string{"X-Api-Key", "k"})
 		case 2:
